@@ -3,15 +3,22 @@
     download.go downloadBlock, task.go initJob/availbTask/Remove/Sort/
     releaseJob/checkTask), transcribed as the code is.
 
-    Phase one: one goroutine per height.  Every goroutine holds its own slice
-    header over ONE shared backing array of *taskInfo (the slice is passed by
-    value to the goroutines; [tasks.Remove] is [append(t[:i], t[i+1:]...)] and
-    therefore shifts the shared array in place and shortens only the caller's
-    header).  The per-task fields TaskNum and Index live behind the shared
-    pointers.  Sort / availbTask / Remove run under the task-list mutex and are
-    atomic events of the transition system; releaseJob takes only the task's
-    own mutex and is an event of its own.  The offset of every header is 0
-    (append(t[:i], ...) keeps the base), so a view is just a length.
+    Phase one: one goroutine per height.  The task slice is passed by value to
+    the goroutines, so they all start on ONE shared backing array of *taskInfo,
+    which [tasks.Sort] sorts in place.  When a request fails, downloadBlock
+    drops the task with [tasks.without] (203ed0e): removal by identity into a
+    fresh slice, so from then on the goroutine owns its list and the shared
+    array is never shortened or shifted.  ([tasks.Remove], which shifts the
+    shared array at the shared [Index] field, is no longer called by the
+    downloader; [availbTask] still writes [Index] but nothing reads it, so the
+    field is not modelled.)  TaskNum lives behind the shared pointers.
+    Sort / availbTask / without run under the task-list mutex and are atomic
+    events of the transition system; releaseJob takes only the task's own
+    mutex and is an event of its own.
+
+    A request ends with the block of the requested height, or with an error:
+    stream reset, malformed answer, a block of another height (be3c9ca), or
+    the 10 s stream deadline when the peer stays silent (85423f4).
 
     Phase two ([checkTask]): after all goroutines have returned, every failed
     height is downloaded again, one after the other, each with a freshly built
@@ -28,10 +35,9 @@ Open Scope Z_scope.
 Inductive resp :=
 | ROk                 (* the block of the requested height *)
 | RRefuse             (* stream reset / closed without an answer *)
-| RStall              (* no answer at all.  The 10 s context of downloadBlockFromPeerOld only
-                         covers NewStream; ReadStream has no deadline: the goroutine waits forever *)
+| RStall              (* no answer at all: the request fails when the stream deadline (10 s) expires *)
 | RMalformed          (* undecodable / empty / wrongly typed answer *)
-| RWrong (bh : Z).    (* a well-formed block of another height *)
+| RWrong (bh : Z).    (* a well-formed block of another height: rejected *)
 
 Inductive pid_entry :=
 | PBad                (* string that peer.Decode rejects *)
@@ -89,11 +95,13 @@ Inductive pc :=
 | PSleep                (* in time.Sleep(400 ms) after availbTask returned nil *)
 | PReq (t : nat)        (* request sent to task t's peer, waiting *)
 | PFailRel (t : nat)    (* error received; before releaseJob *)
-| PRemove (t : nat)     (* before tasks.Remove(task) *)
+| PRemove (t : nat)     (* before tasks.without(task) *)
 | POkRel (t : nat)      (* block handed to the blockchain; before releaseJob *)
 | PDone (ok : bool).    (* downloadBlock returned (nil / error) *)
 
-Record gstate := mkG { g_h : Z; g_vlen : nat; g_retry : nat; g_pc : pc }.
+(** [g_own]: the goroutine's own task list once it has dropped a task; [None]
+    while its slice header still is the shared array *)
+Record gstate := mkG { g_h : Z; g_own : option (list nat); g_retry : nat; g_pc : pc }.
 
 (** observable events *)
 Inductive obs :=
@@ -104,10 +112,13 @@ Inductive obs :=
 Record state := mkState {
   s_arr : list nat;        (* shared backing array: task ids *)
   s_tnum : list Z;         (* TaskNum per task id *)
-  s_idx : list nat;        (* Index per task id *)
   s_gs : list gstate;      (* goroutines of phase one, by height *)
   s_log : list obs         (* newest first *)
 }.
+
+(** the task list a goroutine works on *)
+Definition view (s : state) (G : gstate) : list nat :=
+  match g_own G with Some l => l | None => s_arr s end.
 
 Fixpoint upd {A} (l : list A) (i : nat) (v : A) : list A :=
   match l, i with
@@ -136,8 +147,7 @@ Definition isort (lat : nat -> N) (l : list nat) : list nat :=
 Definition task_lat (ts : list task) (t : nat) : N := t_lat (nth t ts (mkTask 0 0%N)).
 Definition task_peer (ts : list task) (t : nat) : nat := t_peer (nth t ts (mkTask 0 0%N)).
 
-Definition sort_view (ts : list task) (arr : list nat) (vlen : nat) : list nat :=
-  isort (task_lat ts) (firstn vlen arr) ++ skipn vlen arr.
+Definition sort_tasks (ts : list task) (l : list nat) : list nat := isort (task_lat ts) l.
 
 (** availbTask: first task of the view whose peer is high enough and below its limit *)
 Fixpoint scan (c : config) (ts : list task) (tnum : list Z) (h limit : Z)
@@ -150,21 +160,14 @@ Fixpoint scan (c : config) (ts : list task) (tnum : list Z) (h limit : Z)
       else scan c ts tnum h limit tl (S i)
   end.
 
-(** append(t[:i], t[i+1:]...) on the shared array, for a header of length vlen *)
-Definition remove_shared (arr : list nat) (vlen i : nat) : list nat :=
-  firstn i arr ++ skipn (S i) (firstn vlen arr) ++ skipn (vlen - 1) arr.
+(** tasks.without: a fresh list without the task (pointer identity = task id) *)
+Definition without (t : nat) (l : list nat) : list nat := filter (fun x => negb (x =? t)%nat) l.
 
 Definition release (tnum : list Z) (t : nat) : list Z :=
   let v := nth t tnum 0 - 1 in upd tnum t (if v <? 0 then 0 else v).
 
-Definition accepted (r : resp) : option (option Z) :=
-  match r with
-  | ROk => Some None
-  | RWrong bh => Some (Some bh)
-  | _ => None
-  end.
-
-Definition is_stall (r : resp) : bool := match r with RStall => true | _ => false end.
+(** downloadBlockFromPeerOld returns a block only for the requested height *)
+Definition accepted (r : resp) : bool := match r with ROk => true | _ => false end.
 
 (** * Events of phase one *)
 
@@ -175,10 +178,10 @@ Inductive event :=
 Definition ev_g (e : event) : nat :=
   match e with Sort g | Pick g | Result g | Release g | Remove g | Sleep g => g end.
 
-Definition dummy_g : gstate := mkG 0 0 0 (PDone false).
+Definition dummy_g : gstate := mkG 0 None 0 (PDone false).
 
 Definition set_g (s : state) (g : nat) (x : gstate) : state :=
-  mkState (s_arr s) (s_tnum s) (s_idx s) (upd (s_gs s) g x) (s_log s).
+  mkState (s_arr s) (s_tnum s) (upd (s_gs s) g x) (s_log s).
 
 (** one event; [None] when it is not enabled *)
 Definition step (c : config) (ts : list task) (s : state) (e : event) : option state :=
@@ -187,45 +190,42 @@ Definition step (c : config) (ts : list task) (s : state) (e : event) : option s
   let G := nth g (s_gs s) dummy_g in
   match e, g_pc G with
   | Sort _, PStart =>
-      Some (mkState (sort_view ts (s_arr s) (g_vlen G)) (s_tnum s) (s_idx s)
-                    (upd (s_gs s) g (mkG (g_h G) (g_vlen G) (g_retry G) PLoop)) (s_log s))
+      match g_own G with
+      | None =>
+          Some (mkState (sort_tasks ts (s_arr s)) (s_tnum s)
+                        (upd (s_gs s) g (mkG (g_h G) None (g_retry G) PLoop)) (s_log s))
+      | Some l =>
+          Some (set_g s g (mkG (g_h G) (Some (sort_tasks ts l)) (g_retry G) PLoop))
+      end
   | Pick _, PLoop =>
-      if (g_vlen G =? 0)%nat then
-        Some (set_g s g (mkG (g_h G) (g_vlen G) (g_retry G) (PDone false)))
+      let v := view s G in
+      if (length v =? 0)%nat then
+        Some (set_g s g (mkG (g_h G) (g_own G) (g_retry G) (PDone false)))
       else if (max_retry <? S (g_retry G))%nat then
-        Some (set_g s g (mkG (g_h G) (g_vlen G) (S (g_retry G)) (PDone false)))
+        Some (set_g s g (mkG (g_h G) (g_own G) (S (g_retry G)) (PDone false)))
       else
-        match scan c ts (s_tnum s) (g_h G) (limit_of (g_vlen G)) (firstn (g_vlen G) (s_arr s)) 0 with
-        | None => Some (set_g s g (mkG (g_h G) (g_vlen G) (S (g_retry G)) PSleep))
-        | Some (t, i) =>
-            Some (mkState (s_arr s) (upd (s_tnum s) t (nth t (s_tnum s) 0 + 1)) (upd (s_idx s) t i)
-                          (upd (s_gs s) g (mkG (g_h G) (g_vlen G) (S (g_retry G)) (PReq t)))
+        match scan c ts (s_tnum s) (g_h G) (limit_of (length v)) v 0 with
+        | None => Some (set_g s g (mkG (g_h G) (g_own G) (S (g_retry G)) PSleep))
+        | Some (t, _) =>
+            Some (mkState (s_arr s) (upd (s_tnum s) t (nth t (s_tnum s) 0 + 1))
+                          (upd (s_gs s) g (mkG (g_h G) (g_own G) (S (g_retry G)) (PReq t)))
                           (OReq (g_h G) (task_peer ts t) :: s_log s))
         end
-  | Sleep _, PSleep => Some (set_g s g (mkG (g_h G) (g_vlen G) (g_retry G) PLoop))
+  | Sleep _, PSleep => Some (set_g s g (mkG (g_h G) (g_own G) (g_retry G) PLoop))
   | Result _, PReq t =>
-      if is_stall (c_beh c (task_peer ts t) (g_h G)) then None (* the answer never comes *) else
-      match accepted (c_beh c (task_peer ts t) (g_h G)) with
-      | Some o =>
-          let bh := match o with None => g_h G | Some b => b end in
-          Some (mkState (s_arr s) (s_tnum s) (s_idx s)
-                        (upd (s_gs s) g (mkG (g_h G) (g_vlen G) (g_retry G) (POkRel t)))
-                        (ODeliver bh (task_peer ts t) :: s_log s))
-      | None => Some (set_g s g (mkG (g_h G) (g_vlen G) (g_retry G) (PFailRel t)))
-      end
+      if accepted (c_beh c (task_peer ts t) (g_h G)) then
+        Some (mkState (s_arr s) (s_tnum s)
+                      (upd (s_gs s) g (mkG (g_h G) (g_own G) (g_retry G) (POkRel t)))
+                      (ODeliver (g_h G) (task_peer ts t) :: s_log s))
+      else Some (set_g s g (mkG (g_h G) (g_own G) (g_retry G) (PFailRel t)))
   | Release _, POkRel t =>
-      Some (mkState (s_arr s) (release (s_tnum s) t) (s_idx s)
-                    (upd (s_gs s) g (mkG (g_h G) (g_vlen G) (g_retry G) (PDone true))) (s_log s))
+      Some (mkState (s_arr s) (release (s_tnum s) t)
+                    (upd (s_gs s) g (mkG (g_h G) (g_own G) (g_retry G) (PDone true))) (s_log s))
   | Release _, PFailRel t =>
-      Some (mkState (s_arr s) (release (s_tnum s) t) (s_idx s)
-                    (upd (s_gs s) g (mkG (g_h G) (g_vlen G) (g_retry G) (PRemove t))) (s_log s))
+      Some (mkState (s_arr s) (release (s_tnum s) t)
+                    (upd (s_gs s) g (mkG (g_h G) (g_own G) (g_retry G) (PRemove t))) (s_log s))
   | Remove _, PRemove t =>
-      let i := nth t (s_idx s) 0%nat in
-      if (g_vlen G <? i + 1)%nat then
-        Some (set_g s g (mkG (g_h G) (g_vlen G) (g_retry G) PLoop))
-      else
-        Some (mkState (remove_shared (s_arr s) (g_vlen G) i) (s_tnum s) (s_idx s)
-                      (upd (s_gs s) g (mkG (g_h G) (g_vlen G - 1) (g_retry G) PLoop)) (s_log s))
+      Some (set_g s g (mkG (g_h G) (Some (without t (view s G))) (g_retry G) PLoop))
   | _, _ => None
   end.
 
@@ -248,8 +248,8 @@ Definition heights (c : config) : list Z :=
 
 Definition init_state (ts : list task) (hs : list Z) : state :=
   let n := length ts in
-  mkState (seq 0 n) (repeat 0 n) (repeat 0%nat n)
-          (map (fun h => mkG h n 0 PStart) hs)
+  mkState (seq 0 n) (repeat 0 n)
+          (map (fun h => mkG h None 0 PStart) hs)
           (match ts with [] => [] | _ => [OInit (map t_peer ts)] end).
 
 (** any list of events is a schedule: events that are not enabled are skipped *)
